@@ -505,7 +505,9 @@ func (w *worker[T, JobType]) stopAndRemoveAllWorkers() {
 }
 
 func (w *worker[T, JobType]) start() error {
-	if w.IsRunning() {
+	// only a worker that has not been started (or has been reset by Restart) starts here:
+	// binding another queue must not resume a paused worker or revive a stopped one
+	if w.status.Load() != initiated {
 		return ErrRunningWorker
 	}
 
